@@ -44,10 +44,10 @@ type PMatchExpr struct {
 }
 
 type PAffinity struct {
-	HasNodeAffinity    bool             `json:"hasNodeAffinity"`
-	Required           *[][]PMatchExpr  `json:"required"`
-	HasPodAffinity     bool             `json:"hasPodAffinity"`
-	HasPodAntiAffinity bool             `json:"hasPodAntiAffinity"`
+	HasNodeAffinity    bool            `json:"hasNodeAffinity"`
+	Required           *[][]PMatchExpr `json:"required"`
+	HasPodAffinity     bool            `json:"hasPodAffinity"`
+	HasPodAntiAffinity bool            `json:"hasPodAntiAffinity"`
 }
 
 type PPod struct {
